@@ -218,6 +218,13 @@ bool Instance::setup_environment(unsigned int flags) {
     env->execdata = execdata;
     env->tce = tce;
 
+    // BIP16: the scriptSig of a pay-to-script-hash spend must be push-only (as must every scriptSig under SIGPUSHONLY)
+    if (env->operational && successor_script.size() && !script.IsPushOnly() &&
+        ((flags & SCRIPT_VERIFY_SIGPUSHONLY) || ((flags & SCRIPT_VERIFY_P2SH) && successor_script.IsPayToScriptHash()))) {
+        error = SCRIPT_ERR_SIG_PUSHONLY;
+        env->operational = false;
+    }
+
     return env->operational;
 }
 
